@@ -216,7 +216,7 @@ PROPS["C18"] = {
 
 def frame_rules(nat_bits=4):
     return [BITITER_NEXT_REC, WRITE_BIT_REC,
-            (r"BitWriter::<.*>::write_bits_be$", "*", nat_bits + 1),
+            (r"BitWriter::<.*>::write_bits_be$", "*", 10),
             (r"::read_natural::<", ("rank", 0), 4),
             (r"::read_natural::<", ("rank", 1), 4),
             (r"::read_natural::<", ("rank", 2), nat_bits + 1),
